@@ -30,7 +30,8 @@ WireCase(t) ==
 WireStrings == UNION { Mutants(EncTx(tx)) : tx \in MutBases }
                \cup { EncTx(tx) : tx \in FamNullIss }
                \cup { EmptyWitnessForm(tx) : tx \in { x \in MutBases : ~HasWitness(x) } }
-               \cup UNION { WidenMutants(EncTx(tx)) : tx \in BoundaryBases } \cup { EncTx(tx) : tx \in BoundaryBases }
+               \cup UNION { WidenMutants(EncTx(tx)) : tx \in BoundaryBases } \cup { EncTx(tx) : tx \in BoundaryBases } \cup { EncTx(tx) : tx \in OverMaxBases }
+               \cup UNION { HiMutants(EncTx(tx)) : tx \in FamCounts \cup FamIn({0}, {{"arp", "krp", "sw", "pw"}}) }
 Depth2 == IF Tier = "quick" THEN {} ELSE UNION { Mutants(m) : m \in UNION { Mutants(EncTx(tx)) : tx \in FamCounts } }
 
 \* constant-level restatement of the model-level claims on exactly what is emitted
@@ -38,8 +39,8 @@ ASSUME \A tx \in BaseSet : RoundTrip(tx) /\ SizesAgree(tx) /\ IdsRelate(tx) /\ V
 ASSUME \A t \in WireStrings \cup Depth2 : Canonical(t)
 
 \* headers, blocks, parameters, stand-alone pieces ---------------------------------------------
-HeaderSet == (IF Tier = "quick" THEN { h \in FamHeader : h.version = "20000000" \/ h.ext.kind = "proof" } ELSE FamHeader) \cup FamHeaderWide
-HeaderCase(h) == [h |-> h, toks |-> EncHeader(h), hashpre |-> BlockHashPre(h), cleared |-> EncHeader(ClearWitness(h)),
+HeaderSet == (IF Tier = "quick" THEN { h \in FamHeader : h.version # "1" \/ h.ext.kind = "proof" } ELSE FamHeader) \cup FamHeaderWide
+HeaderCase(h) == [h |-> h, canonical |-> (h \notin FamHeaderMarked), toks |-> EncHeader(h), hashpre |-> BlockHashPre(h), cleared |-> EncHeader(ClearWitness(h)),
                   fields |-> SetToSeq(HeaderFields(h))]
 HeaderWire(t) == LET r == DecHeader(t) IN
   [ty |-> "BlockHeader", toks |-> t, ok |-> (r.ok /\ Len(r.rest) = 0), pok |-> r.ok, consumed |-> IF r.ok THEN Consumed(t, r) ELSE 0,
@@ -68,7 +69,7 @@ GInit == x = 0
 GNext == UNCHANGED x
 ASSUME ndJsonSerialize(IOEnv.OUT_BASE, SetToSeq({ BaseCase(tx) : tx \in BaseSet }))
 ASSUME ndJsonSerialize(IOEnv.OUT_WIRE, SetToSeq({ WireCase(t) : t \in WireStrings \cup Depth2 }))
-ASSUME ndJsonSerialize(IOEnv.OUT_HEADER, SetToSeq({ HeaderCase(h) : h \in HeaderSet }))
+ASSUME ndJsonSerialize(IOEnv.OUT_HEADER, SetToSeq({ HeaderCase(h) : h \in HeaderSet \cup FamHeaderMarked }))
 ASSUME ndJsonSerialize(IOEnv.OUT_HWIRE, SetToSeq({ HeaderWire(t) : t \in HeaderStrings } \cup { ParamWire(t) : t \in ParamStrings }))
 ASSUME ndJsonSerialize(IOEnv.OUT_BLOCK, SetToSeq({ BlockCase(b) : b \in FamBlock \cup FamBlockWide }))
 ASSUME ndJsonSerialize(IOEnv.OUT_PIECE, SetToSeq(PieceCases))
